@@ -25,8 +25,7 @@ def run(ctx, mod, path):
     for c, e in builds:
         # C18 BUILD: the recorded case is a cargo command line over /repo's current tree
         from props import c18
-        fs = c.split("--features ", 1)[1].split(",") if "--features " in c else []
-        brc, out = c18.cargo_build(fs, "rp")
+        brc, out = c18.cargo_build(c18.spec_of_label(c), "rp")
         errs = [l for l in out.split("\n") if l.startswith("error")]
         print("  [BUILD] %s\n     now : %s\n     recorded: %s" % (c[:300], "builds" if brc == 0 else "FAILS: " + " ;; ".join(errs[:4])[:600],
                                                                   str(e.get("impl"))[:200]))
